@@ -92,6 +92,34 @@ def do_call(spec, cache):
             return {"ok": canon(to_wire(generate_one(sobj)))}
         if op == "resolve":
             return {"ok": canon(to_wire(schemaless_reader(io.BytesIO(bytes.fromhex(spec["bytes"])), sobj, copy.deepcopy(spec["reader"]))))}
+        if op == "shared_dict":
+            # the documented way of parsing pieces against one shared dictionary; optionally a later parse into the same
+            # dictionary FAILS midway; then the parent parsed before is used
+            ns = {}
+            for piece in spec["pieces"]:
+                parse_schema(copy.deepcopy(piece), ns)
+            parent = parse_schema(copy.deepcopy(spec["parent"]), ns)
+            for bad in spec.get("failing", []):
+                try:
+                    parse_schema(copy.deepcopy(bad), ns)
+                except Exception:
+                    pass
+            fo = io.BytesIO()
+            schemaless_writer(fo, parent, spec["value"])
+            back = schemaless_reader(io.BytesIO(fo.getvalue()), parent)
+            return {"ok": [fo.getvalue().hex(), canon(to_wire(back)), bool(validate(spec["value"], parent, raise_errors=False))]}
+        if op == "two_writers":
+            # two Writer objects alive at once on two streams, constructed in the given order, then written to
+            from fastavro.write import Writer
+            fos = [io.BytesIO(), io.BytesIO()]
+            ws = [None, None]
+            for idx in spec["construct_order"]:
+                ws[idx] = Writer(fos[idx], copy.deepcopy(spec["schemas"][idx]), sync_marker=b"0123456789abcdef", **spec.get("kwargs", [{}, {}])[idx])
+            for idx in spec["write_order"]:
+                for rec in spec["records"][idx]:
+                    ws[idx].write(rec)
+                ws[idx].flush()
+            return {"ok": [hashlib.sha1(f.getvalue()).hexdigest() for f in fos]}
         if op == "read_container":
             rs = copy.deepcopy(spec["reader"]) if spec.get("reader") is not None else None
             return {"ok": [canon(to_wire(x)) for x in fastavro.reader(io.BytesIO(bytes.fromhex(spec["bytes"])), rs)]}
@@ -210,7 +238,9 @@ def module_state():
 OP_ENTRY = {"parse": ["parse_schema", "to_parsing_canonical_form"], "canon": ["to_parsing_canonical_form"],
             "fingerprint": ["fingerprint", "to_parsing_canonical_form"], "write": ["schemaless_writer"],
             "read": ["schemaless_reader"], "validate": ["validate"], "container": ["writer", "reader"],
-            "json": ["json_writer", "json_reader"], "append": ["writer", "reader"], "generate": ["generate_one"], "resolve": ["schemaless_reader"]}
+            "json": ["json_writer", "json_reader"], "append": ["writer", "reader"], "generate": ["generate_one"], "resolve": ["schemaless_reader"],
+            "shared_dict": ["parse_schema", "schemaless_writer", "schemaless_reader", "validate"], "two_writers": ["writer"],
+            "read_container": ["reader"]}
 
 
 def table():
@@ -256,6 +286,55 @@ def directed_histories(run, tier, seed, pristine):
                 run.fail({"history": [dict(x) for x in calls[:c + 1]], "after_history": got, "fresh": fresh, "tags": ["decimal-precisions"]},
                          "the result of a call after a history differs from the same call made first in a fresh interpreter", kind="oracle")
                 break
+    # (c) pieces parsed against one shared dictionary, a later parse into it that fails midway, then the parent is used
+    # (d) two Writer objects alive at once (one with logical types, one without), constructed and written in every order
+    import datetime as _dt
+    import decimal as _dec
+    import uuid as _uuid
+    child = {"type": "enum", "name": "shop.Size", "symbols": ["S", "M", "L"]}
+    child2 = {"type": "record", "name": "shop.Item", "fields": [{"name": "size", "type": "shop.Size"}, {"name": "n", "type": "int"}]}
+    parent = {"type": "record", "name": "shop.Order", "fields": [{"name": "item", "type": "shop.Item"}, {"name": "gift", "type": ["null", "shop.Size"]}]}
+    failing = [
+        {"type": "record", "name": "shop.Other", "fields": [{"name": "s", "type": {"type": "enum", "name": "shop.Size", "symbols": ["2XL"]}}]},
+        {"type": "record", "name": "shop.Other2", "fields": [{"name": "i", "type": {"type": "record", "name": "shop.Item", "fields": [
+            {"name": "q", "type": "int", "default": "not-an-int"}]}}]},
+        {"type": "record", "name": "shop.Order", "fields": [{"name": "x", "type": "NoSuchType"}]},
+        {"type": "enum", "name": "shop.Size", "symbols": ["A", "A"]}]
+    value = {"item": {"size": "M", "n": 2}, "gift": "L"}
+    base_spec = {"op": "shared_dict", "schema": None, "pieces": [child, child2], "parent": parent, "value": value, "failing": []}
+    ref = do_call(copy.deepcopy(base_spec), {})
+    for h in range(scale(tier, 8)):
+        fl = rr.sample(failing, rr.randint(1, 3))
+        spec = dict(base_spec, failing=fl)
+        got = do_call(copy.deepcopy(spec), {})
+        fresh = pristine.call(copy.deepcopy(spec))
+        run.cov["evaluations"] += 1
+        run.tag("directed:failed-parse-into-shared-dict")
+        if got != fresh or got != ref:
+            run.fail({"pieces": [child, child2], "parent": parent, "failing_parses": fl, "after_failed_parse": got, "without": ref, "fresh": fresh,
+                      "tags": ["shared-dict"]},
+                     "a parse that fails midway changes what an earlier parsed schema (same shared dictionary) does", kind="oracle")
+            break
+    sa = {"type": "record", "name": "Pay", "fields": [{"name": "id", "type": {"type": "string", "logicalType": "uuid"}},
+                                                     {"name": "amt", "type": {"type": "bytes", "logicalType": "decimal", "precision": 9, "scale": 2}},
+                                                     {"name": "day", "type": {"type": "int", "logicalType": "date"}}]}
+    sb = {"type": "record", "name": "Plain", "fields": [{"name": "n", "type": "int"}, {"name": "s", "type": "string"}]}
+    ra = [{"id": _uuid.UUID(int=7), "amt": _dec.Decimal("12.50"), "day": _dt.date(2020, 2, 29)}]
+    rb = [{"n": 1, "s": "x"}, {"n": 2, "s": "y"}]
+    for co in ([0, 1], [1, 0]):
+        for wo in ([0, 1], [1, 0]):
+            for kw in ([{}, {}], [{"validator": True}, {}], [{}, {"metadata": {"k": "v"}}]):
+                spec = {"op": "two_writers", "schema": None, "schemas": [sa, sb], "records": [ra, rb], "construct_order": co, "write_order": wo, "kwargs": kw}
+                got = do_call(copy.deepcopy(spec), {})
+                fresh = pristine.call(copy.deepcopy(spec))
+                alone = do_call(dict(copy.deepcopy(spec), construct_order=[0, 1], write_order=[0, 1]), {})
+                run.cov["evaluations"] += 1
+                run.tag("directed:two-writers")
+                if got != fresh or ("ok" in got and "ok" in alone and got["ok"] != alone["ok"]):
+                    run.fail({"construct_order": co, "write_order": wo, "kwargs": kw, "after_history": got, "fresh": fresh, "other_order": alone,
+                              "tags": ["two-writers"]},
+                             "two writers alive at once: the files written depend on the order in which the writers were constructed / used", kind="oracle")
+                    break
     for h in range(scale(tier, 6)):
         w = {"type": "record", "name": "Old", "fields": [{"name": "a", "type": "int", "default": 10}, {"name": "b", "type": "string", "default": "xy"}]}
         fo = io.BytesIO()
